@@ -20,7 +20,7 @@ import ast
 from typing import Dict, List, Optional, Set, Tuple
 
 from .report import Ctx
-from .srcmodel import FuncNode, call_leaf, call_name, calls_in, const_str, contains, dotted, enclosing_function, get_kwarg, qualname, src, walk_local
+from .srcmodel import AnalysisError, FuncNode, call_leaf, call_name, calls_in, const_str, contains, dotted, enclosing_function, get_kwarg, qualname, src, walk_local
 from .util import enclosing_trys, enclosing_withs, exc_expr_names, guard_chain, handler_type_names, root_name
 
 PARSE_ENTRIES = ["parse_args", "parse_object", "parse_env", "parse_string", "parse_path"]
@@ -51,6 +51,52 @@ def _handler_calls_error(h: ast.ExceptHandler) -> bool:
         if isinstance(s, ast.Expr) and isinstance(s.value, ast.Call) and call_leaf(s.value) == "error" and root_name(s.value.func) in ("self", "parser"):
             return True
     return False
+
+
+def _yaml_exception_classes() -> Dict[str, List[str]]:
+    """class name -> base names, for every class of the installed PyYAML that derives from YAMLError (read from source)."""
+    import os
+
+    from .yamlmodel import yaml_dir
+
+    classes: Dict[str, List[str]] = {}
+    d = yaml_dir()
+    for fn in sorted(os.listdir(d)):
+        if fn.endswith(".py"):
+            with open(os.path.join(d, fn)) as f:
+                try:
+                    tree = ast.parse(f.read())
+                except SyntaxError:
+                    continue
+            for n in tree.body:
+                if isinstance(n, ast.ClassDef):
+                    classes[n.name] = [dotted(b).split(".")[-1] for b in n.bases if dotted(b)]
+    out = {}
+    for name in classes:
+        seen, st = set(), [name]
+        while st:
+            x = st.pop()
+            if x in seen:
+                continue
+            seen.add(x)
+            st += classes.get(x, [])
+        if "YAMLError" in seen:
+            out[name] = classes[name]
+    if "YAMLError" not in out or "ReaderError" not in out:
+        raise AnalysisError("PyYAML exception hierarchy (YAMLError, ReaderError) not found in the installed source")
+    return out
+
+
+def _subclasses_of(name: str, classes: Dict[str, List[str]]) -> Set[str]:
+    out = {name}
+    changed = True
+    while changed:
+        changed = False
+        for k, bases in classes.items():
+            if k not in out and any(b in out for b in bases):
+                out.add(k)
+                changed = True
+    return out
 
 
 def run(ctx: Ctx) -> int:
@@ -251,6 +297,24 @@ def run(ctx: Ctx) -> int:
     for m in sorted(modes):
         ok = m in arms or m in supplied
         ctx.oblige("C03.R5", ok, gle, f"loader mode '{m}' has anticipated exceptions ({'arm in get_loader_exceptions' if m in arms else 'supplied to set_loader'})" if ok else f"loader mode '{m}' has no anticipated exceptions: its failures would escape as foreign exception types", fn=gle, construct=f"mode {m}")
+
+    # the exceptions anticipated for the built-in modes cover the whole exception hierarchy of the loader library
+    yaml_classes = _yaml_exception_classes()
+    for c in ast.walk(gle):
+        if isinstance(c, ast.If) and isinstance(c.test, ast.Compare) and root_name(c.test.left) == "mode" and const_str(c.test.comparators[0]) in ("yaml", "json"):
+            m = const_str(c.test.comparators[0])
+            named = {n.attr for b in c.body for n in ast.walk(b) if isinstance(n, ast.Attribute)} | {n.id for b in c.body for n in ast.walk(b) if isinstance(n, ast.Name)}
+            if m == "yaml":
+                covered = set()
+                for nm in named:
+                    if nm in yaml_classes:
+                        covered |= _subclasses_of(nm, yaml_classes)
+                raised_by_load = {k for k in yaml_classes if k in ("ReaderError", "ScannerError", "ParserError", "ComposerError", "ConstructorError", "MarkedYAMLError", "YAMLError")}
+                missing = sorted(raised_by_load - covered)
+                ctx.oblige("C03.R5", not missing, c, f"yaml mode anticipates the root of PyYAML's exception hierarchy ({sorted(named & set(yaml_classes))} covers {len(covered)} classes)" if not missing else f"yaml mode anticipates only {sorted(named & set(yaml_classes))}: yaml.load can also raise {missing}, which would escape every handler built on get_loader_exceptions()", fn=gle, construct="yaml exception root")
+            else:
+                ok = "JSONDecodeError" in named or "ValueError" in named
+                ctx.oblige("C03.R5", ok, c, "json mode anticipates JSONDecodeError" if ok else f"json mode anticipates {sorted(named)}, not JSONDecodeError", fn=gle, construct="json exception root")
 
     # coverage of load call sites
     def covered(c: ast.Call) -> bool:
